@@ -13,16 +13,24 @@ def compile_ir(src, flags=('-UNDEBUG',)):
     key = facts.tree_hash(extra=[open(src, 'rb').read(), flags])
     out = os.path.join(facts.CACHE, 'ir_%s_%s.ll' % (os.path.basename(src)[:-4], key))
     if not os.path.exists(out):
-        for old in [p for p in os.listdir(facts.CACHE) if p.startswith('ir_' + os.path.basename(src)[:-4])]:
+        # concurrent checks may compile at the same time: private temporary name, and only finished files are evicted
+        olds = sorted((p for p in os.listdir(facts.CACHE) if p.startswith('ir_' + os.path.basename(src)[:-4]) and p.endswith('.ll')),
+                      key=lambda p: os.path.getmtime(os.path.join(facts.CACHE, p)) if os.path.exists(os.path.join(facts.CACHE, p)) else 0)
+        for old in olds[:-int(os.environ.get('COCLS_CACHE_KEEP', '3'))]:
             try:
                 os.unlink(os.path.join(facts.CACHE, old))
             except OSError:
                 pass
-        cmd = ['clang++', '-std=gnu++20', '-I' + os.path.join(facts.REPO, 'src'), '-O0', '-g0', '-S', '-emit-llvm', '-Wno-everything'] + list(flags) + [src, '-o', out + '.tmp']
+        tmp = '%s.%d.tmp' % (out, os.getpid())
+        cmd = ['clang++', '-std=gnu++20', '-I' + os.path.join(facts.REPO, 'src'), '-O0', '-g0', '-S', '-emit-llvm', '-Wno-everything'] + list(flags) + [src, '-o', tmp]
         r = subprocess.run(cmd, capture_output=True, text=True)
         if r.returncode != 0:
+            try:
+                os.unlink(tmp)
+            except OSError:
+                pass
             raise Broken('IR driver %s does not compile against this tree: %s' % (os.path.basename(src), r.stderr[-600:]))
-        os.replace(out + '.tmp', out)
+        os.replace(tmp, out)
     return out
 
 
